@@ -349,5 +349,75 @@ func main() {
 		}
 	}
 	generatePaths(r, g, do)
+	carryBoundary(r, g, do)
 	r.Sample("purgearp 005555555555 c0a80081 fe800000000000000000000000010129 006666666666 c0a8000b 1500 c0a80005 7 => ffffffff0604... (destination MAC bytes 4,5 overwritten by hlen/plen; arp hlen/plen stale)")
+}
+
+// ---------------------------------------------------------------- checksum carry boundaries
+
+// leFold1 is the library's accumulation (little-endian words, odd tail byte) followed by its FIRST fold
+// s>>16 + s&0xffff: the value whose range [0xffff, 0x10003] decides whether the second fold and the
+// final complement are exercised at their edges.
+func leFold1(b []byte) uint32 {
+	var s uint32
+	for i := 0; i+1 < len(b); i += 2 {
+		s += uint32(b[i+1])<<8 | uint32(b[i])
+	}
+	if len(b)%2 == 1 {
+		s += uint32(b[len(b)-1])
+	}
+	return s>>16 + s&0xffff
+}
+
+// steer searches a 16-bit value for the two bytes at off (big-endian) such that leFold1(b) == target.
+func steer(b []byte, off int, target uint32) (uint16, bool) {
+	for v := 0; v < 65536; v++ {
+		b[off], b[off+1] = byte(v>>8), byte(v)
+		if leFold1(b) == target {
+			return uint16(v), true
+		}
+	}
+	return 0, false
+}
+
+// carryBoundary adds echo requests whose ICMP sum (id steered), ICMPv6 pseudo-header sum (id steered) and
+// IPv4 header sum (low half of the destination steered) land on every value of [0xffff, 0x10003] after the
+// first fold.
+func carryBoundary(r *lib.Run, g gen, do func(kind string, c nicCfg, args ...string)) {
+	rng := g.rng
+	reps := 3
+	if r.Thorough() {
+		reps = 40
+	}
+	hello := []byte("HELLO-NETFILTER")
+	for rep := 0; rep < reps; rep++ {
+		c := g.cfg()
+		for target := uint32(0xfffe); target <= 0x10003; target++ {
+			seq := uint16(rng.U64())
+			// ICMPv4 message: type 8, code 0, checksum 0, id, seq, data
+			m := append([]byte{8, 0, 0, 0, 0, 0, byte(seq >> 8), byte(seq)}, hello...)
+			if id, ok := steer(m, 4, target); ok {
+				do("echo4", c, lib.Hex(g.mac()), ipTok(g.ip4()), lib.Hex(g.mac()), ipTok(g.ip4()), strconv.Itoa(int(id)), strconv.Itoa(int(seq)), g.seed())
+				r.Stat("class.carry.icmp4", 1)
+			}
+			// IPv4 header as CalculateChecksum sees it: bytes 0..9, 12..19, two zero bytes
+			src, dst := g.ip4().As4(), g.ip4().As4()
+			h := []byte{0x45, 0xc0, 0, 43, 0, 0, 0, 0, 50, 1, src[0], src[1], src[2], src[3], dst[0], dst[1], 0, 0, 0, 0}
+			if lo, ok := steer(h, 16, target); ok {
+				d := netip.AddrFrom4([4]byte{dst[0], dst[1], byte(lo >> 8), byte(lo)})
+				do("echo4", c, lib.Hex(g.mac()), ipTok(netip.AddrFrom4(src)), lib.Hex(g.mac()), ipTok(d), strconv.Itoa(int(uint16(rng.U64()))), strconv.Itoa(int(seq)), g.seed())
+				r.Stat("class.carry.ip4hdr", 1)
+			}
+			// ICMPv6: pseudo header (src, dst, length, next header) + message
+			s6, d6 := g.ip6(), g.ip6()
+			sa, da := s6.As16(), d6.As16()
+			p := append(append(append([]byte{}, sa[:]...), da[:]...), 0, 0, 0, 23, 0, 0, 0, 58)
+			p = append(p, 128, 0, 0, 0, 0, 0, byte(seq>>8), byte(seq))
+			p = append(p, hello...)
+			if id, ok := steer(p, 44, target); ok {
+				do("echo6", c, lib.Hex(g.mac()), ipTok(s6), lib.Hex(g.mac()), ipTok(d6), strconv.Itoa(int(id)), strconv.Itoa(int(seq)), g.seed())
+				r.Stat("class.carry.icmp6", 1)
+			}
+		}
+	}
 }
